@@ -30,7 +30,7 @@ func init() {
 		Judge:   "C44.judge", Shard: 400, Run: run})
 }
 
-// Class of the recorded finding: a position that is exactly the start of a line
+// Class of the (repaired) finding: a position that is exactly the start of a line
 // that follows a \r\n pair.
 const classAfterCRLF = "to-idx-line-start-after-crlf"
 
@@ -118,7 +118,7 @@ func textClass(s string) string {
 
 // emitText observes lspPositionToIdx on the grid l0..l0+nl-1 x c0..c0+nc-1 and
 // lspPositionFromIdx on -1..len+1, plus one separate case per position of the
-// recorded finding class.
+// repaired finding class (kept planted).
 func emitText(c *reg.Ctx, via, s string, l0, nl, c0, nc int) {
 	tos := make([]byte, 0, nl*nc)
 	toInts := make([]int, 0, nl*nc)
@@ -249,7 +249,7 @@ func run(c *reg.Ctx) {
 			fullGrid(c, "sample56", sb.String())
 		}
 	}
-	// planted: the witness of the recorded finding and its neighbours
+	// planted: the witness of the repaired CRLF finding and its neighbours
 	for _, s := range []string{"nop\r\necho", "\r\n", "a\r\n\r\nb", "a\r\r\nb", "a\n\r\nb", "😀\r\né"} {
 		fullGrid(c, "planted", s)
 	}
